@@ -620,6 +620,27 @@ def _install() -> None:
     _reg("ndpoly.raw", g_raw_ctor, lambda a, k: n.ndpoly(exponents=a[0], shape=a[3], names=a[2]), "construct", weight=1)
     _reg("from_attributes.raw", g_raw_ctor, lambda a, k: n.polynomial_from_attributes(a[0], a[1], a[2], **k), "construct", weight=1)
 
+    # the representation cleaners take the bare exponent matrix and coefficient list
+    def g_raw_clean(ch: core.Chooser) -> dict:
+        lit = gen_poly(ch.sub("a"), max_terms=4, kind=ch.choice(["int", "float"]))
+        nv = len(lit["names"])
+        exps = numpy.array(lit["exponents"], dtype="int64").reshape(len(lit["exponents"]), nv)
+        cdt = "int64" if lit.get("dtype", "int64").startswith("int") else "float64"
+        cols = [numpy.array(col, dtype=cdt).reshape(lit["shape"]) for col in lit["coefficients"]]
+        if ch.chance(0.5) and len(cols) >= 1:
+            cols[ch.below(len(cols))][...] = 0  # a redundant term
+        mode = ch.choice(["none", "one", "one", "some", "all"])  # redundant names: none, one column, a subset, every column
+        for j in range(nv):
+            if mode == "all" or (mode == "some" and ch.chance(0.5)):
+                exps[:, j] = 0
+        if mode == "one":
+            exps[:, ch.below(nv)] = 0
+        dt = ch.choice(["uint32", "int64", "uint8"])
+        return {"args": [A(exps, dt), {"seq": [A(c, cdt) for c in cols]}, {"tuple": list(lit["names"])}], "kwargs": {}}
+
+    _reg("clean.coefficients", g_raw_clean, lambda a, k: n.remove_redundant_coefficients(a[0], a[1]), "construct")
+    _reg("clean.names", g_raw_clean, lambda a, k: n.remove_redundant_names(a[0], a[2]), "construct")
+
     def g_cross_truncate(ch: core.Chooser) -> dict:
         d, m = ch.between(1, 3), ch.between(1, 8)
         dt = ch.choice(["float64", "float64", "int64", "uint8"])
